@@ -169,7 +169,12 @@ class Check(FormulaCheck):
         words = ['apple', 'pear', 'Plum', 'fig', 'kiwi', 'Lime', 'date', 'nut', 'yam', 'pea', 'oat', 'rye', 'bean', 'corn', 'leek', 'kale', 'a,b', 'x y', '']
         # (suffixes include the characters that pattern languages other than * and ? give a meaning to: an item is found by its own text)
         pool = [w + s for s in ('', '2', '_z', '!', '[1]', ']', '[a-z]', '[!x]', '(1)', '+', '.', '^$', '{2}', '|') for w in words]
-        return rnd.sample(pool, n)
+        out = rnd.sample(pool, n)
+        if n >= 2 and rnd.random() < 0.3:
+            # the same text more than once (up to letter case): MATCH type 0 answers with the FIRST position
+            i, j = rnd.sample(range(n), 2)
+            out[j] = rnd.choice([out[i], out[i].upper(), out[i].lower(), out[i].title()])
+        return out
 
     def c_index(self, spec, rec):
         rnd = self.rng(spec)
